@@ -625,7 +625,7 @@ pub fn run(args: &[String]) {
             }
         });
     }
-    let worker = std::thread::Builder::new().name("c17-calls".into()).stack_size(8 << 20).spawn(move || {
+    let worker = std::thread::Builder::new().name("c17-calls".into()).stack_size(2 << 20).spawn(move || {
         let mut rs = Ruleset::server_default(&OwnedUserId::try_from("@me:s.co").unwrap());
         let digest = |rs: &Ruleset| fnv(&serde_json::to_string(rs).unwrap_or_default());
         {
